@@ -379,7 +379,7 @@ bool MemoryPersister::get(unsigned& sender_seqnum, unsigned& target_seqnum) cons
 	Store::const_iterator itr(_store.find(0));
 	if (itr == _store.end())
 		return false;
-	const unsigned *loc(reinterpret_cast<const unsigned *>(&itr->second));
+	const unsigned *loc(reinterpret_cast<const unsigned *>(itr->second.data()));
 	sender_seqnum = *loc++;
 	target_seqnum = *loc;
    return true;
